@@ -148,6 +148,37 @@ func (p snapWhenAlone) pick(c []*schedTask, step int) *schedTask {
 	return t
 }
 
+// genSusp3: shape 2 - a Flush is suspended at a drawn point inside the flush
+// pipeline, a writer task completes one to three calls, the flush resumes and
+// completes, and the process dies before the next flush.
+func genSusp3(t *rapid.T) SuspCase {
+	c := SuspCase{Shape: 2}
+	c.Cfg = genConfig(t, cfgGenOpts{smallBits: true, smallFiles: true})
+	if c.Cfg.Bits > 12 {
+		c.Cfg.Bits = 8
+	}
+	c.Cfg.Immutable = false
+	c.Keys = genKeys(t, c.Cfg, 3, 8)
+	pm := genMix(t, []string{opPut, opRemove, opFlush}, []int{6, 1, 3})
+	c.Prefix = genOps(t, pm, len(c.Keys), c.Cfg, 2, 14, false)
+	nu := rapid.IntRange(0, 3).Draw(t, "unflushed")
+	for i := 0; i < nu; i++ {
+		c.Unflushed = append(c.Unflushed, Op{K: []string{opPut, opRemove}[weighted(t, "ukind", []int{5, 1})], Key: rapid.IntRange(0, len(c.Keys)-1).Draw(t, "ukey"), VLen: 5 + i})
+	}
+	nw := rapid.IntRange(1, 3).Draw(t, "nwrites")
+	for i := 0; i < nw; i++ {
+		c.Other = append(c.Other, Op{K: []string{opPut, opRemove}[weighted(t, "wkind", []int{5, 1})], Key: rapid.IntRange(0, len(c.Keys)-1).Draw(t, "wkey"), VLen: 11 + i})
+	}
+	c.PointFlush = append([]string{"flush.stamped"}, suspFlushPoints...)[rapid.IntRange(0, len(suspFlushPoints)).Draw(t, "flpoint")]
+	c.GCLow = []int{0, 50, 100}[rapid.IntRange(0, 2).Draw(t, "gclow")]
+	return c
+}
+
+type suspState struct {
+	val     []byte
+	present bool
+}
+
 // snapWhenGCDone wraps the double-preemption policy of shape 1.
 type snapWhenGCDone struct {
 	inner doublePreemption
@@ -201,10 +232,7 @@ func runSusp2(c SuspCase, withFsck bool) (st suspStats, v *Violation) {
 		}
 	}
 	// allowed[k]: every state the key had from the last completed flush on.
-	type state struct {
-		val     []byte
-		present bool
-	}
+	type state = suspState
 	allowed := map[int][]state{}
 	for k := range c.Keys {
 		v, p := model[k]
@@ -224,6 +252,44 @@ func runSusp2(c SuspCase, withFsck bool) (st suspStats, v *Violation) {
 	}
 	var img dirImage
 	snapped := false
+	if c.Shape == 2 {
+		// The state when the flush starts replaces everything before it: the
+		// flush completes before the crash, so what was acknowledged before it
+		// began must be durable.
+		for k := range c.Keys {
+			allowed[k] = allowed[k][len(allowed[k])-1:]
+		}
+		sch := newScheduler()
+		sch.install()
+		sch.spawn("flush", func(yield func(string)) { s.Flush() })
+		werr := false
+		sch.spawn("writer", func(yield func(string)) {
+			for i, op := range c.Other {
+				if err := apply(8000+i, op); err != nil {
+					werr = true
+					return
+				}
+				k := op.Key % len(c.Keys)
+				v, p := model[k]
+				allowed[k] = append(allowed[k], state{v, p})
+				st.overwrite = true
+			}
+		})
+		allDone := sch.run(singlePreemption{a: 0, point: c.PointFlush, n: 1, order: []int{1}}, 6000)
+		parkedThere := sch.tasks[0].hits[c.PointFlush] > 0
+		late := sch.lateArrivals
+		sch.release()
+		sch.uninstall()
+		if allDone && parkedThere && !werr && late == 0 {
+			img = readDirImage(dir)
+		}
+		closeQuietly(s)
+		if img == nil {
+			return st, nil
+		}
+		st.snapped = true
+		return suspRecover(c, st, img, allowed, "call-inside-suspended-flush@"+c.PointFlush, withFsck, enc)
+	}
 	sch := newScheduler()
 	sch.install()
 	sch.spawn("gc", func(yield func(string)) {
@@ -242,7 +308,11 @@ func runSusp2(c SuspCase, withFsck bool) (st suspStats, v *Violation) {
 			defer sch.mu.Unlock()
 			return len(sch.tasks) > 1 && sch.tasks[0].state == tsDone
 		},
-		snap: func() { img = readDirImage(dir) }}
+		snap: func() {
+			if sch.lateArrivals == 0 {
+				img = readDirImage(dir)
+			}
+		}}
 	sch.run(pol, 6000)
 	sch.release()
 	sch.uninstall()
@@ -251,7 +321,17 @@ func runSusp2(c SuspCase, withFsck bool) (st suspStats, v *Violation) {
 		return st, nil
 	}
 	st.snapped = true
-	site := "gc-then-flush-suspended@" + c.PointFlush
+	return suspRecover(c, st, img, allowed, "gc-then-flush-suspended@"+c.PointFlush, withFsck, enc)
+}
+
+// suspRecover restores an image of shapes 1 and 2 and checks it: every key must
+// read one of its allowed states, and keep reading the same after a flush, a
+// primary GC cycle, an index GC cycle and another flush.
+func suspRecover(c SuspCase, st suspStats, img dirImage, allowedIn interface{}, site string, withFsck bool, enc func(int) []byte) (suspStats, *Violation) {
+	type state = suspState
+	allowed := allowedIn.(map[int][]suspState)
+	var s *store.Store
+	var v *Violation
 
 	dir2 := newScratch("susprec")
 	defer os.RemoveAll(dir2)
@@ -302,6 +382,9 @@ func runSusp2(c SuspCase, withFsck bool) (st suspStats, v *Violation) {
 					if !found {
 						sym = "absent-but-durable"
 					}
+					if c.Shape == 2 {
+						return viol("recovery-"+sym+"|"+site+"|", 0, "key %d reads (%s, found=%v) after a crash that followed a flush which had been suspended at %s while %d write call(s) completed and which then completed itself; the key had %d state(s) from the start of that flush on, none of which this is", k, shortBytes(got), found, c.PointFlush, len(c.Other), len(allowed[k]))
+					}
 					return viol("recovery-"+sym+"|"+site+"|gc@"+c.PointGC, 0, "key %d reads (%s, found=%v) after a crash with a flush suspended at %s and a %s cycle (parked at %s, then completed) behind it; it had %d state(s) since the last completed flush, none of which this is", k, shortBytes(got), found, c.PointFlush, c.GC.K, c.PointGC, len(allowed[k]))
 				}
 				first[k] = state{got, found}
@@ -337,7 +420,7 @@ func runSusp2(c SuspCase, withFsck bool) (st suspStats, v *Violation) {
 }
 
 func runSusp(c SuspCase, withFsck bool) (st suspStats, v *Violation) {
-	if c.Shape == 1 {
+	if c.Shape == 1 || c.Shape == 2 {
 		return runSusp2(c, withFsck)
 	}
 	dir := newScratch("susp")
@@ -405,7 +488,9 @@ func runSusp(c SuspCase, withFsck bool) (st suspStats, v *Violation) {
 		sch.mu.Lock()
 		otherDone := len(sch.tasks) > 1 && sch.tasks[1].state == tsDone
 		sch.mu.Unlock()
-		if otherDone && !otherErr {
+		// Only strictly serialized runs count here (one task at a time): a
+		// call that really overlaps a flush is the subject of shape 2.
+		if otherDone && !otherErr && sch.lateArrivals == 0 {
 			img = readDirImage(dir)
 		}
 	}}
@@ -518,15 +603,20 @@ func runSuspCampaign(t *testing.T, ev *Evidence, n int, withFsck bool, keep func
 			return
 		}
 		var c SuspCase
-		if weighted(rt, "shape", []int{1, 1}) == 1 {
+		switch weighted(rt, "shape", []int{2, 2, 1}) {
+		case 1:
 			c = genSusp2(rt)
-		} else {
+		case 2:
+			c = genSusp3(rt)
+		default:
 			c = genSusp(rt)
 		}
 		st, v := runSusp(c, withFsck)
 		cl := []string{"suspended-call-crash"}
 		if st.snapped && c.Shape == 1 {
 			cl = append(cl, "suspended-flush-behind-gc:image-taken@"+c.PointFlush)
+		} else if st.snapped && c.Shape == 2 {
+			cl = append(cl, "call-inside-suspended-flush:image-taken@"+c.PointFlush)
 		} else if st.snapped {
 			cl = append(cl, "suspended-call-crash:image-taken@"+c.Point)
 		}
